@@ -86,6 +86,22 @@ def analyze(args):
         if out["mism"]:
             out["status"] = "validation_mismatch"
             return out
+        # --- concrete differential on the same vectors: real evaluator on F vs real evaluator on S
+        for k in range(len(evs) // 2):
+            evF, evS = evs[2 * k], evs[2 * k + 1]
+            try:
+                bad_c, why_c = judge_replay(case, dict(evals=[evF, evS], contexts=[dict(dump=S)]))
+            except Exception as e:  # noqa
+                bad_c, why_c = False, ""
+            if bad_c:
+                out["status"] = "concrete_diff"
+                out["note"] = why_c
+                out["cex"] = dict(concrete=True, plain=case["_eval_plain"][k], compiled=case["_eval_comp"][k])
+                return out
+        if case.get("concrete_only"):
+            out["status"] = "concrete_ok"
+            out["validated"] = len(evs) // 2
+            return out
         # --- symbolic
         it = Interp(None, sym=True)
         xs = [it.fresh_value(t, "x%d" % i) for i, t in enumerate(in_types)]
@@ -230,6 +246,13 @@ def run(chk, cases, timeout_s):
             replay.append((c, o))
         elif o["status"] == "skipped_refuted_template":
             pass
+        elif o["status"] == "concrete_ok":
+            chk.count("concrete_only_programs")
+            chk.count("concrete_only_vectors", o["validated"])
+        elif o["status"] == "concrete_diff":
+            chk.violation(c.get("key", "concrete|%s|%s|%s|%s" % (c["template"], c["owners"], c["outs"], c["mode"])),
+                          "%s owners=%s outs=%s mode=%s plaintext inputs=%s: real evaluator: %s" % (c["id"], c["owners"], c["outs"], c["mode"], o["cex"]["plain"], o["note"]),
+                          dict(kind="c01_concrete", module="symg.check_c01", case={k: v for k, v in c.items() if not k.startswith("_")}, cex=o["cex"]))
         elif o["status"] == "stage_error" and not o.get("panic") and c.get("may_reject"):
             chk.count("rejected_by_compiler")
         elif o["status"] == "validation_mismatch":
